@@ -95,6 +95,84 @@ class SimPinger(object):
     return "<SimPinger %d>" % self.fd
 
 
+class SimPipeEnd(object):
+  """One end of a simulated os.pipe() (see SimOS): what the real
+  pox.lib.util PipePinger reads from / writes to when the run keeps the real
+  pinger code (install(..., real_pinger=True))."""
+
+  def __init__(self, sim, pipe, kind):
+    self.pipe = pipe
+    self.kind = kind
+    self.fd = sim._new_fd(self)
+
+  def readable(self):
+    return self.kind == "r" and self.pipe[0] > 0
+
+  def writable(self):
+    return self.kind == "w"
+
+  def exceptional(self):
+    return False
+
+  def fileno(self):
+    return self.fd
+
+
+class SimOS(object):
+  """Stands in for the `os` module inside pox.lib.util: pipe/read/write/close
+  on simulated pipes, everything else from the real module."""
+
+  name = "posix"
+
+  def __init__(self, sim):
+    self._sim = sim
+
+  def pipe(self):
+    sim = self._sim
+    box = [0]
+    r = SimPipeEnd(sim, box, "r")
+    w = SimPipeEnd(sim, box, "w")
+    return (r.fd, w.fd)
+
+  def write(self, fd, data):
+    sim = self._sim
+    end = sim.fds.get(fd)
+    if not isinstance(end, SimPipeEnd) or end.kind != "w":
+      raise OSError(errno.EBADF, "Bad file descriptor")
+    end.pipe[0] += len(data)
+    sim.stats["ping"] += 1
+    sim._poke()
+    return len(data)
+
+  def read(self, fd, n):
+    sim = self._sim
+    end = sim.fds.get(fd)
+    if not isinstance(end, SimPipeEnd) or end.kind != "r":
+      raise OSError(errno.EBADF, "Bad file descriptor")
+    box = end.pipe
+    if box[0] == 0:
+      # a blocking pipe: the caller sleeps until somebody writes
+      sim.stats["pong_on_empty"] += 1
+      eng = getattr(sim, "engine", None)
+      if eng is not None and eng.me() is not None:
+        # (the engine reports a deadlock if nobody is left to write)
+        eng.block(lambda: box[0] > 0, None)
+      else:
+        raise SimAbort("pinger-read-blocks-forever",
+                       "read() on an empty pinger pipe: the reading thread "
+                       "would block with nobody left to write")
+    k = min(n, box[0])
+    box[0] -= k
+    return b" " * k
+
+  def close(self, fd):
+    pass
+
+  def __getattr__(self, name):
+    import os as _os
+    return getattr(_os, name)
+
+
 class SimSocket(object):
   """
   One end of a simulated TCP connection (or a listener).
@@ -543,7 +621,7 @@ class Sim(object):
   def _w(self, obj):
     if isinstance(obj, SimPinger):
       return obj
-    fd = obj.fileno()
+    fd = obj if isinstance(obj, int) else obj.fileno()
     if fd < 0:
       # what select.select() does for a closed socket object
       self.stats["select_on_closed"] += 1
@@ -687,17 +765,24 @@ def _capture_logging(sim):
   sim.last_error = None
 
 
-def install(sim, capture_log=True):
+def install(sim, capture_log=True, real_pinger=False):
   """
   Replace every nondeterminism seam in the loaded pox modules with the
   simulator's.  Called once in a freshly forked child.
+
+  real_pinger: keep pox.lib.util's own PipePinger code and put the seam one
+  level lower (util's `os`: pipe/read/write on a simulated pipe).
   """
   import gc
   gc.disable()
   import pox.lib.util as U
   import pox.lib.recoco.recoco as R
-  U.makePinger = sim.make_pinger
-  U.make_pinger = sim.make_pinger
+  if real_pinger:
+    U.os = SimOS(sim)
+    sim.real_pinger = True
+  else:
+    U.makePinger = sim.make_pinger
+    U.make_pinger = sim.make_pinger
   for name, mod in list(sys.modules.items()):
     if not name.startswith("pox") or mod is None:
       continue
@@ -708,7 +793,8 @@ def install(sim, capture_log=True):
       d["time"] = sim.timemod
     if d.get("socket") is _real_socket:
       d["socket"] = sim.socketmod
-    if d.get("makePinger") is not None and name != "pox.lib.util":
+    if (d.get("makePinger") is not None and name != "pox.lib.util"
+        and not real_pinger):
       d["makePinger"] = sim.make_pinger
     if name == "pox.openflow.of_01":
       import select as _sel
